@@ -267,6 +267,14 @@ def rule_shape(ctx: Ctx) -> RuleResult:
                   "whitespace may be stripped)", DISCHARGED if ok else VIOLATED,
                   "only str.strip()" if ok else f"transformations applied: {[h[2] for h in holes]} {[l[1][:20] for l in lits]}",
                   n.lineno)
+    # ... and the trimming is applied to what is stored (an indented first line would otherwise open the module with an IndentationError)
+    rr.instances += 1
+    stripped = any(h[0] == "hole" and h[1] == "param:preamble" and "strip()" in h[2]
+                   for n in stores for v in ss.variants(sa, sa.module, n.value) for h in v)
+    rr.ob(sa.relpath, sa.qualname, "self.preamble = <stripped text>", "the text that is stored is the trimmed one", DISCHARGED if stripped else VIOLATED,
+          "a stored variant went through str.strip()" if stripped else
+          "strip() is used (if at all) only to test the text, the untrimmed text is stored: a preamble whose first line is indented makes the "
+          "module start with `IndentationError: unexpected indent`", stores[0].lineno)
     # the namespace value is handed to set_args untouched
     pa = prog.func(CLI, "Cli.parse_args")
     rr.instances += 1
